@@ -1,85 +1,131 @@
-"""Process pool for running the real pyins code: per-task wall-clock limit, a dead worker (segfault from an
-out-of-bounds numba write, os._exit) is an observation, not a crash of the check."""
-import multiprocessing as mp, os, time, traceback, queue as _q
+"""Process pool for running the real pyins code: per-task wall-clock limit, and a dead worker (segfault from an out-of-bounds
+numba write, os._exit) is an observation, not a crash of the check.  The parent assigns every task to a specific worker over
+that worker's own pipe, so it always knows which task a worker held when it died or hung (a shared queue loses the task a
+worker took just before crashing, and a process dying inside Queue.get() can leave the queue's lock held)."""
+import multiprocessing as mp, os, time, traceback
+from multiprocessing.connection import wait
 
-def _worker(init, fn, inq, outq):
+
+def _worker(init, fn, conn):
     try:
         ctx = init() if init else None
-    except Exception:
-        outq.put(("initfail", None, traceback.format_exc()))
-        return
+        conn.send(("ready", None, None))
+    except BaseException:
+        try:
+            conn.send(("initfail", None, traceback.format_exc()))
+        finally:
+            return
     while True:
-        item = inq.get()
+        try:
+            item = conn.recv()
+        except EOFError:
+            return
         if item is None:
             return
         k, arg = item
-        outq.put(("start", k, os.getpid()))
         try:
-            outq.put(("done", k, fn(ctx, arg)))
+            res = ("done", k, fn(ctx, arg))
         except BaseException as e:   # the task functions catch what they expect; this is a harness bug
-            outq.put(("error", k, "%s: %s\n%s" % (type(e).__name__, e, traceback.format_exc())))
+            res = ("error", k, "%s: %s\n%s" % (type(e).__name__, e, traceback.format_exc()))
+        try:
+            conn.send(res)
+        except Exception as e:
+            conn.send(("error", k, "result could not be sent: %s" % e))
 
 
-def run_tasks(fn, args, init=None, procs=None, task_timeout=120.0):
+def run_tasks(fn, args, init=None, procs=None, task_timeout=120.0, init_timeout=300.0):
     """Yield (index, status, result) with status in done|error|timeout|died. fn(ctx, arg) runs in a worker."""
     procs = procs or min(16, os.cpu_count() or 4, max(1, len(args)))
     ctx = mp.get_context("fork")
-    inq, outq = ctx.Queue(), ctx.Queue()
-    pending = list(enumerate(args))
+    pending = list(range(len(args)))
     pending.reverse()
-    workers = {}
-    running = {}       # pid -> (k, t_start)
+    workers = {}      # conn -> dict(proc, task, t0, ready)
     n_left = len(args)
+    init_failures = 0
 
     def spawn():
-        p = ctx.Process(target=_worker, args=(init, fn, inq, outq), daemon=True)
+        parent, child = ctx.Pipe()
+        p = ctx.Process(target=_worker, args=(init, fn, child), daemon=True)
         p.start()
-        workers[p.pid] = p
+        child.close()
+        workers[parent] = dict(proc=p, task=None, t0=time.time(), ready=False)
+
+    def retire(conn, kill=True):
+        w = workers.pop(conn)
+        if kill and w["proc"].is_alive():
+            w["proc"].kill()
+        w["proc"].join(5)
+        try:
+            conn.close()
+        except Exception:
+            pass
+
+    def feed(conn):
+        w = workers[conn]
+        if w["ready"] and w["task"] is None and pending:
+            k = pending.pop()
+            try:
+                conn.send((k, args[k]))
+                w["task"], w["t0"] = k, time.time()
+            except Exception:
+                pending.append(k)
 
     for _ in range(procs):
         spawn()
-    fed = 0
-    for _ in range(min(2 * procs, len(pending))):
-        inq.put(pending.pop()); fed += 1
-    results_seen = set()
     while n_left > 0:
-        try:
-            kind, k, payload = outq.get(timeout=1.0)
-        except _q.Empty:
-            kind = None
+        if not workers:
+            spawn()
+        ready = wait(list(workers), timeout=1.0)
         now = time.time()
-        if kind == "start":
-            running[payload] = (k, now)
-        elif kind in ("done", "error"):
-            for pid, (kk, _) in list(running.items()):
-                if kk == k:
-                    del running[pid]
-            if k not in results_seen:
-                results_seen.add(k); n_left -= 1
-                yield k, kind, payload
-            if pending:
-                inq.put(pending.pop())
-        elif kind == "initfail":
-            raise RuntimeError("worker initialisation failed:\n" + payload)
-        # timeouts and deaths
-        for pid, (k, t0) in list(running.items()):
-            p = workers.get(pid)
-            dead = p is not None and not p.is_alive()
-            if dead or now - t0 > task_timeout:
-                if p is not None and p.is_alive():
-                    p.kill()
-                    p.join(5)
-                workers.pop(pid, None)
-                del running[pid]
-                if k not in results_seen:
-                    results_seen.add(k); n_left -= 1
-                    yield k, ("died" if dead else "timeout"), None
+        for conn in ready:
+            w = workers.get(conn)
+            if w is None:
+                continue
+            try:
+                kind, k, payload = conn.recv()
+            except (EOFError, OSError):
+                k = w["task"]
+                retire(conn)
+                if k is not None:
+                    n_left -= 1
+                    yield k, "died", None
+                if n_left > 0:
+                    spawn()
+                continue
+            if kind == "ready":
+                w["ready"] = True
+            elif kind == "initfail":
+                retire(conn)
+                init_failures += 1
+                if init_failures > 3:
+                    raise RuntimeError("worker initialisation failed:\n" + str(payload))
                 spawn()
-                if pending:
-                    inq.put(pending.pop())
-    for _ in workers:
-        inq.put(None)
-    for p in workers.values():
-        p.join(2)
-        if p.is_alive():
-            p.kill()
+                continue
+            else:
+                w["task"] = None
+                n_left -= 1
+                yield k, kind, payload
+            feed(conn)
+        for conn, w in list(workers.items()):
+            dead = not w["proc"].is_alive()
+            limit = task_timeout if w["task"] is not None else (init_timeout if not w["ready"] else None)
+            if (dead and not conn.poll()) or (limit is not None and now - w["t0"] > limit):
+                k = w["task"]
+                retire(conn)
+                if k is not None:
+                    n_left -= 1
+                    yield k, ("died" if dead else "timeout"), None
+                if n_left > 0:
+                    spawn()
+            else:
+                feed(conn)
+    for conn in list(workers):
+        try:
+            conn.send(None)
+        except Exception:
+            pass
+    deadline = time.time() + 3
+    for conn in list(workers):
+        w = workers[conn]
+        w["proc"].join(max(0.0, deadline - time.time()))
+        retire(conn)
